@@ -90,3 +90,17 @@ Example C24_nonvacuous :
     fdur (t_index t) = 36%nat /\ flen (t_index t) = 66%nat /\ valid_cut (t_index t) 45 7 /\
     mvtail (t_mcur t) = 8 /\ mvtail (t_msyn t) = 0.
 Proof. eexists. split; [vm_compute; reflexivity|]. vm_compute. repeat split; lia. Qed.
+
+(* evaluated, not quantified: on two concrete non-trivial states, EVERY index cut (every kept length
+   between durable and current, every zero fill) combined with three head-file cuts, and every
+   head-file cut combined with three index cuts, under either metadata record, reopens to one
+   contiguous range whose head is the flush-offset head and whose items read what the live table read *)
+Example C24_all_cuts_examples :
+  (exists t, final 100 true H_vtail = Ok t /\ sweep_cuts true t = true) /\
+  (exists t, final 60 true H_mixed = Ok t /\ inv_b t = true /\
+             (fdur (t_index t) < flen (t_index t))%nat /\ sweep_cuts true t = true).
+Proof.
+  split.
+  - eexists. split; [vm_compute; reflexivity|]. vm_compute. reflexivity.
+  - eexists. split; [vm_compute; reflexivity|]. vm_compute. repeat split; lia.
+Qed.
